@@ -10,7 +10,8 @@ for (n, k, m, thorough) in [(1, 1, 3, False), (2, 1, 4, False), (2, 2, 4, False)
                       "bounds": "capacity N=%d, pick k=%d, every history of %d samples with distinct delays (all prefixes checked)" % (n, k, m), "thorough_only": thorough})
 HARNESSES += [
     {"name": "luckyreset", "fn": P + "VerifC17LuckyReset", "bounds": "N=3, k=2, 4 samples before and 4 after Reset"},
-    {"name": "ntimedreset", "fn": P + "VerifC17NtimedReset", "bounds": "arbitrary internal state, 3 samples after the reset", "cfg": NT},
+    {"name": "ntimedresetstate", "fn": P + "VerifC17NtimedResetState", "bounds": "arbitrary internal states, explicit reset and epoch change, one sample", "cfg": NT, "timeout_quick": 200},
+    {"name": "ntimedreset", "timeout_quick": 200, "fn": P + "VerifC17NtimedReset", "bounds": "arbitrary internal state, 3 samples after the reset", "cfg": NT},
     {"name": "ntimedraw", "fn": P + "VerifC17NtimedRaw", "bounds": "arbitrary internal state with navg in {0,1,2}, one sample", "cfg": NT},
 ]
 ASSUMPTIONS = ["slices.SortFunc by contract", "Ntimed: floating-point products/quotients/sqrt of symbolic operands are uninterpreted functions; float->int conversion range not checked; the numeric closeness of the Ntimed output to the integer offset is NOT decided (DESIGN C17)",
